@@ -124,20 +124,29 @@ func negChain(c *ref.Crit, k int) *ref.Crit {
 	return c
 }
 
-//verif:harness props=C02,C01,C16 tier=quick bounds="negation chains: Not^k(leaf) for k<=4 (and Not^j of an And/Or of two such chains, j<=2) over comparison leaves on x with literals nil/float{-1.5,0,2.5}, index on x; document field absent/nil/float64 (symbolic): planner ranges stay sound"
-func H_C02_plan_negchains() {
-	leaf := func(n string) *ref.Crit {
-		return negChain(genCmpLeaf(n, "x", planVal2), nd.Choice(n+".negs", 5))
+func negChainHarness(lit ref.Opts, maxInner int) {
+	leaf := func(n string, maxNeg int) *ref.Crit {
+		return negChain(genCmpLeaf(n, "x", lit), nd.Choice(n+".negs", maxNeg+1))
 	}
 	var crit *ref.Crit
 	switch nd.Choice("shape", 3) {
 	case 0:
-		crit = leaf("a")
+		crit = leaf("a", 4)
 	case 1:
-		crit = negChain(&ref.Crit{Op: ref.OpAnd, A: leaf("a"), B: leaf("b")}, nd.Choice("outer.negs", 3))
+		crit = negChain(&ref.Crit{Op: ref.OpAnd, A: leaf("a", maxInner), B: leaf("b", maxInner)}, nd.Choice("outer.negs", 3))
 	case 2:
-		crit = negChain(&ref.Crit{Op: ref.OpOr, A: leaf("a"), B: leaf("b")}, nd.Choice("outer.negs", 3))
+		crit = negChain(&ref.Crit{Op: ref.OpOr, A: leaf("a", maxInner), B: leaf("b", maxInner)}, nd.Choice("outer.negs", 3))
 	}
 	planSound(crit, []string{"x"}, genFields("d", planDoc2, "x"))
 	nd.Reach("end")
+}
+
+//verif:harness props=C02,C01,C16 tier=quick bounds="negation chains: Not^k(leaf) for k<=4, and Not^j (j<=2) of an And/Or of two chains with k<=1, over comparison leaves on x with literals nil/0.0, index on x; document field absent/nil/float64 (symbolic): planner ranges stay sound"
+func H_C02_plan_negchains() {
+	negChainHarness(ref.Opts{Kinds: ref.KNil | ref.KFloat, ConcFloats: true, OneFloat: true}, 1)
+}
+
+//verif:harness props=C02,C01,C16 tier=thorough bounds="negation chains as above with inner chains k<=4 and literals nil/float{-1.5,0,2.5}"
+func H_C02_plan_negchains_full() {
+	negChainHarness(planVal2, 4)
 }
